@@ -20,12 +20,14 @@ type sc struct {
 	*run
 	name   string
 	budget int // steps (deliveries, timeouts) the schedule may still take; negative: no limit (the liveness driver cuts schedules short)
+	spent  int // steps taken so far
 }
 
 func (s *sc) spend() bool {
 	if s.budget == 0 {
 		return false
 	}
+	s.spent++
 	if s.budget > 0 {
 		s.budget--
 	}
@@ -965,6 +967,18 @@ func scenarioWeights(name string) []uint64 {
 		return []uint64{1, 4, 3, 2}
 	}
 	return []uint64{1, 1, 1, 1}
+}
+
+// scenarioLength: number of steps (deliveries, timeouts) the schedule takes when it runs in full
+func scenarioLength(name string) int {
+	cl := newCluster(scenarioWeights(name), scenarioByz(name), 1, false)
+	defer cl.close()
+	null := newNdjson("/dev/null")
+	defer null.close()
+	r := &run{cl: cl, adv: newAdversary(cl), rnd: newRand(1), out: null, chain: map[uint64]commitRec{}, maxH: 2, stats: map[string]int{}, tmpl: map[string]int{}}
+	s := &sc{run: r, name: name, budget: -1}
+	scenarioTable[name](s)
+	return s.spent
 }
 
 func scenarioNames() []string {
